@@ -89,7 +89,13 @@ fn il_all(t: Tier) -> Vec<IlCase> {
 
 fn il_strategy(_t: Tier) -> BoxedStrategy<IlCase> {
     let dim = || prop_oneof![2 => Just(1usize), 5 => 1usize..=12, 2 => 13usize..=64];
-    (dim(), dim(), any::<bool>(), any::<u32>(), 0..LAYOUTS, prop_oneof![3 => Just(0usize), 2 => 1usize..=12]).prop_map(|(columns, rows, backward, salt, layout, warm_rows)| IlCase { columns, rows, backward, salt, layout, warm_rows }).boxed()
+    let small = (dim(), dim(), any::<bool>(), any::<u32>(), 0..LAYOUTS, prop_oneof![3 => Just(0usize), 2 => 1usize..=12]).prop_map(|(columns, rows, backward, salt, layout, warm_rows)| IlCase { columns, rows, backward, salt, layout, warm_rows });
+    // blocks of more than 2^16 elements: few columns and very many rows, or the other way round
+    let big = (prop_oneof![Just(2usize), Just(3), Just(5)], 22_000usize..=35_000, any::<bool>(), any::<bool>(), any::<u32>(), 0..LAYOUTS).prop_map(|(a, b, swap, backward, salt, layout)| {
+        let (columns, rows) = if swap { (b, a) } else { (a, b) };
+        IlCase { columns, rows, backward, salt, layout, warm_rows: 0 }
+    });
+    prop_oneof![250 => small, 1 => big].boxed()
 }
 
 fn check_il(c: &IlCase, p: &mut Probe) -> Check {
@@ -309,7 +315,7 @@ pub fn property() -> Property {
             }),
             Box::new(Sub {
                 name: "interleaver-random",
-                rule: "random shapes up to 64 x 64 (degenerate C = 1 / R = 1 weighted up), both directions, random label salt, all six input layouts, 40 % of the cases on an object that first processed another block length; same oracle",
+                rule: "random shapes up to 64 x 64 (degenerate C = 1 / R = 1 weighted up; one case in 250 a block of 44 000 - 175 000 elements, 2/3/5 columns by 22 000 - 35 000 rows or transposed), both directions, random label salt, all six input layouts, 40 % of the cases on an object that first processed another block length; same oracle",
                 cases: |t| t.pick(50_000, 1_000_000),
                 strategy: il_strategy,
                 check: check_il,
